@@ -205,6 +205,7 @@ static void wadd(int id, int kind, const char *s)
 			 : evwatch_check_new(base, check_cb, (void *)(intptr_t)id);
 	if (!r->w) nwatch--;
 }
+static void ticks_to_tv(long long t, struct timeval *tv);
 static void wscript(int id)
 {
 	int idx = wfind(id), i, kpos = -1, prev = -1, next = -1;
@@ -221,6 +222,9 @@ static void wscript(int id)
 	else if (!strcmp(s, "next")) { if (next >= 0) wremove(next); }
 	else if (!strcmp(s, "prev")) { if (prev >= 0) wremove(prev); }
 	else if (!strcmp(s, "new")) { if (id + 1 <= NW && wfind(id + 1) < 0) wadd(id + 1, watch[idx].kind, "none"); }
+	else if (!strcmp(s, "add1")) { struct timeval tv; if (alloc[SLOT(3)]) { ticks_to_tv(1, &tv); event_add(ev[SLOT(3)], &tv); } }
+	else if (!strcmp(s, "act4")) { if (alloc[SLOT(4)]) event_active(ev[SLOT(4)], 2, 1); }
+	else if (!strcmp(s, "del3")) { if (alloc[SLOT(3)]) event_del(ev[SLOT(3)]); }
 }
 static void prep_cb(struct evwatch *w, const struct evwatch_prepare_cb_info *info, void *arg)
 {
